@@ -3,9 +3,14 @@ package bcl
 import (
 	"fmt"
 	"sort"
+	"sync"
 )
 
+// lineCalc maps source offsets to lines and columns.
+// In the file-based pipeline the lexer goroutine adds line feeds while the
+// parser goroutine formats diagnostics, hence the lock.
 type lineCalc struct {
+	mu  sync.RWMutex
 	lfs []int
 }
 
@@ -15,6 +20,9 @@ func newLineCalc() *lineCalc {
 }
 
 func (lc *lineCalc) add(s string, prefix int) {
+	lc.mu.Lock()
+	defer lc.mu.Unlock()
+
 	for i, c := range s {
 		if c == '\n' {
 			lc.lfs = append(lc.lfs, prefix+i)
@@ -25,6 +33,8 @@ func (lc *lineCalc) add(s string, prefix int) {
 // lineColAt gives (line, column) pair for a given position.
 // Note that pos starts at 0, while line and column start at 1.
 func (lc *lineCalc) lineColAt(pos int) (int, int) {
+	lc.mu.RLock()
+	defer lc.mu.RUnlock()
 
 	j := sort.SearchInts(lc.lfs, pos)
 
